@@ -65,8 +65,7 @@ def bisect(
 
     # Search each element in its own direction: a decreasing element is searched
     # as the increasing function -fn with the target -target.
-    sign = torch.where(fn(lower) > fn(upper), -1.0, 1.0)
-    target = sign * target
+    decreasing = fn(lower) > fn(upper)
 
     n_iter = 0
     while torch.max(upper - lower) > precision:
@@ -75,9 +74,9 @@ def bisect(
             raise RuntimeError(f"Aborting since iteration exceeds max_iter={max_iter}.")
 
         m = (lower + upper) / 2
-        output = sign * fn(m)
-        lower = lower.where(output >= target, m)
-        upper = upper.where(output < target, m)
+        output = fn(m)
+        lower = lower.where(torch.where(decreasing, output <= target, output >= target), m)
+        upper = upper.where(torch.where(decreasing, output > target, output < target), m)
 
     return upper
 
